@@ -10,16 +10,18 @@ os.makedirs(dst, exist_ok=True)
 for n in os.listdir(src):
     shutil.copy(os.path.join(src, n), os.path.join(dst, n))
 log = open("/tmp/confirm%s_%s.log" % (R, pid)).read() if os.path.exists("/tmp/confirm%s_%s.log" % (R, pid)) else ""
-res = [l for l in log.splitlines() if l.startswith("---") or l.startswith("test result") or "panicked" in l or "patch.diff matches" in l]
+res = [l for l in log.splitlines() if l.startswith("---") or l.startswith("test result") or "panicked" in l or "patch.diff matches" in l or l.startswith("targets=")]
 notes = open(os.path.join(src, "notes.md")).read()
 meta = {
     "property": PROP,
     "origin": "independent sub-agent given only the property text and a scratch worktree of /repo",
     "patch": "patch.diff",
+    **({"refactoring_alone": "refactor_only.diff (behaviour-preserving half; every obligation must stay silent on it)"} if os.path.exists(os.path.join(src, "refactor_only.diff")) else {}),
     "demonstration": [n for n in os.listdir(src) if n.endswith(".rs")],
     "needs_to_manifest": notes[:1500],
     "confirmed_by_me": {
-        "how": "confirm_seed.sh in the agent's scratch worktree: cargo test --workspace (all pre-existing targets ok), demo with the change (fails), demo after `git checkout -- src proto` (passes), patch.diff identical to the worktree diff",
+        "how": ("confirm_seed8.sh in the agent's scratch worktree: patch.diff identical to the worktree diff; cargo test --workspace with refactoring+bug (all pre-existing targets ok) and with the refactoring alone (all ok); demo fails with refactoring+bug, passes on the original code and with the refactoring alone" if R == "8" else
+                "confirm_seed.sh in the agent's scratch worktree: cargo test --workspace (all pre-existing targets ok), demo with the change (fails), demo after `git checkout -- src proto` (passes), patch.diff identical to the worktree diff"),
         "log_excerpt": res,
     },
     "checks": {"detected_by": det.split(","), "first_run": initial,
